@@ -119,6 +119,51 @@ func gen(t *rapid.T) Case {
 
 func TestPropFreeze(t *testing.T) { evid.RunProp(t, "freeze", 1, gen, check) }
 
+// TestPropCloneCtx: directed family. A helper (text only, or with an action) is needed in one context by a member
+// executed on the clone and in another context by a member executed on the original (both assignments, both
+// orders, clone taken from the root or from a member handle). Contextual rewriting on one side must never show on
+// the other: each result equals the same call on a fresh set.
+func TestPropCloneCtx(t *testing.T) {
+	helpers := []string{`1<2 &amp; a&b`, `a<b>c</b>`, `x < y`, `<`, `{{.V}}`, `<i>{{.V}}</i>`, `v&amp;{{.V}}`}
+	callers := []string{`<p>{{template "hx" .}}</p>`, `<p title="{{template "hx" .}}">x</p>`, `<textarea>{{template "hx" .}}</textarea>`, `<script>var s = 1;{{template "hy" .}}</script>`, `<a href="/p?q={{template "hx" .}}">y</a>`, `<title>{{template "hx" .}}</title>`, `{{template "hx" .}}`}
+	d := &hist.DataSpec{V: "a<b&c\"", U: "/u", C: true, L: 1}
+	var all []Case
+	for _, hb := range helpers {
+		for i, c1 := range callers {
+			for j, c2 := range callers {
+				if i == j {
+					continue
+				}
+				for _, via := range []string{"", "m1"} {
+					for _, cloneFirst := range []bool{true, false} {
+						text := `{{define "hx"}}` + hb + `{{end}}{{define "hy"}}f(1<2);{{end}}{{define "m1"}}` + c1 + `{{end}}{{define "m2"}}` + c2 + `{{end}}`
+						h := hist.History{RootName: "root", Ops: []hist.Op{{Kind: "parse", Text: text}, {Kind: "clone", Via: via}}}
+						e1 := hist.Op{Kind: "exectmpl", Set: 1, Target: "m1", Data: d}
+						e2 := hist.Op{Kind: "exectmpl", Set: 0, Target: "m2", Data: d}
+						if cloneFirst {
+							h.Ops = append(h.Ops, e1, e2, e1, e2)
+						} else {
+							h.Ops = append(h.Ops, e2, e1, e2, e1)
+						}
+						all = append(all, Case{h})
+					}
+				}
+			}
+		}
+	}
+	shard, n := evid.Shard()
+	i := shard
+	evid.RunEnum(t, "clonectx", func() (Case, bool) {
+		if i >= len(all) {
+			return Case{}, false
+		}
+		c := all[i]
+		i += n
+		return c, true
+	}, check)
+	evid.SetExhaustive("clonectx")
+}
+
 func TestReplay(t *testing.T) {
-	evid.Replay(t, evid.R("freeze", check))
+	evid.Replay(t, evid.R("freeze", check), evid.R("clonectx", check))
 }
